@@ -45,7 +45,47 @@ pub enum PV {
     IC(RawIC),
     H(RawH),
     OH(RawOH),
+    Lax(RawLax),
     Panic(String),
+}
+
+/// A `lax::OpenHypergraph`: node identifiers are constant index terms (they are concrete `usize` in the
+/// library), labels are terms.
+#[derive(Clone, Debug, PartialEq)]
+pub struct RawLax {
+    pub nodes: Vec<T>,
+    pub edges: Vec<T>,
+    pub adj: Vec<(Vec<T>, Vec<T>)>,
+    pub quot: Vec<(T, T)>,
+    pub s: Vec<T>,
+    pub t: Vec<T>,
+}
+impl RawLax {
+    pub fn eval(&self, m: &[u64]) -> RawLax {
+        RawLax {
+            nodes: evs(&self.nodes, m),
+            edges: evs(&self.edges, m),
+            adj: self.adj.iter().map(|(a, b)| (evs(a, m), evs(b, m))).collect(),
+            quot: self.quot.iter().map(|(a, b)| (ev(*a, m), ev(*b, m))).collect(),
+            s: evs(&self.s, m),
+            t: evs(&self.t, m),
+        }
+    }
+    pub fn show(&self) -> String {
+        let ts = |xs: &[T]| format!("[{}]", xs.iter().map(|t| tshow(*t)).collect::<Vec<_>>().join(","));
+        format!(
+            "{{\"nodes\":{},\"edges\":{},\"adjacency\":[{}],\"quotient\":[{}],\"sources\":{},\"targets\":{}}}",
+            ts(&self.nodes),
+            ts(&self.edges),
+            self.adj.iter().map(|(a, b)| format!("[{},{}]", ts(a), ts(b))).collect::<Vec<_>>().join(","),
+            self.quot.iter().map(|(a, b)| format!("[{},{}]", tshow(*a), tshow(*b))).collect::<Vec<_>>().join(","),
+            ts(&self.s),
+            ts(&self.t)
+        )
+    }
+    pub fn id(t: T) -> usize {
+        tm::as_const(t).expect("ENGINE-ERROR: lax node identifiers are concrete") as usize
+    }
 }
 
 pub fn ev(t: T, m: &[u64]) -> T {
@@ -92,6 +132,7 @@ impl PV {
             PV::IC(f) => PV::IC(f.eval(m)),
             PV::H(f) => PV::H(f.eval(m)),
             PV::OH(f) => PV::OH(f.eval(m)),
+            PV::Lax(f) => PV::Lax(f.eval(m)),
             PV::Panic(s) => PV::Panic(s.clone()),
         }
     }
@@ -119,6 +160,7 @@ impl PV {
             PV::IC(i) => ic(i),
             PV::H(x) => h(x),
             PV::OH(o) => format!("{{\"s\":{},\"t\":{},\"h\":{}}}", ff(&o.s), ff(&o.t), h(&o.h)),
+            PV::Lax(l) => l.show(),
             PV::Panic(s) => format!("{{\"panic\":{}}}", crate::json::quote(s)),
         }
     }
@@ -505,6 +547,12 @@ impl PV {
             other => panic!("ENGINE-ERROR: expected segmented array, got {:?}", other),
         }
     }
+    pub fn lax(&self) -> &RawLax {
+        match self {
+            PV::Lax(f) => f,
+            other => panic!("ENGINE-ERROR: expected lax diagram, got {:?}", other),
+        }
+    }
     pub fn t(&self) -> T {
         match self {
             PV::T(t) => *t,
@@ -542,4 +590,77 @@ pub fn raw_h_eq(a: &RawH, b: &RawH) -> T {
 }
 pub fn raw_oh_eq(a: &RawOH, b: &RawOH) -> T {
     tm::and(vec![raw_ff_eq(&a.s, &b.s), raw_ff_eq(&a.t, &b.t), raw_h_eq(&a.h, &b.h)])
+}
+
+// ------------------------------------------------------------------ lax diagrams
+/// shape of a lax open hypergraph: nodes, per-edge (source arity, target arity), pending pairs, interface lengths
+#[derive(Clone, Debug, PartialEq, Eq, Hash)]
+pub struct LaxShape {
+    pub n: usize,
+    pub arities: Vec<(usize, usize)>,
+    pub q: usize,
+    pub a: usize,
+    pub b: usize,
+}
+impl LaxShape {
+    pub fn new(n: usize, arities: &[(usize, usize)], q: usize, a: usize, b: usize) -> Self {
+        LaxShape { n, arities: arities.to_vec(), q, a, b }
+    }
+    pub fn refs(&self) -> usize {
+        self.arities.iter().map(|(x, y)| x + y).sum::<usize>() + 2 * self.q + self.a + self.b
+    }
+    pub fn inhabited(&self) -> bool {
+        self.n > 0 || self.refs() == 0
+    }
+    pub fn show(&self) -> String {
+        format!("N{}E{:?}Q{}A{}B{}", self.n, self.arities, self.q, self.a, self.b).replace(' ', "")
+    }
+}
+/// every lax diagram of the shape: node identifiers enumerated (all wirings), labels symbolic
+pub fn gen_lax(sh: &LaxShape, name: &str) -> RawLax {
+    let id = |_: ()| ci(choose(sh.n));
+    let ids = |k: usize| (0..k).map(|_| id(())).collect::<Vec<T>>();
+    RawLax {
+        nodes: gen_labels(sh.n, &format!("{}n", name)),
+        edges: gen_labels(sh.arities.len(), &format!("{}e", name)),
+        adj: sh.arities.iter().map(|(x, y)| (ids(*x), ids(*y))).collect(),
+        quot: (0..sh.q).map(|_| (id(()), id(()))).collect(),
+        s: ids(sh.a),
+        t: ids(sh.b),
+    }
+}
+/// raw equality of two lax diagrams: identical identifiers everywhere and equal labels
+pub fn raw_lax_eq(a: &RawLax, b: &RawLax) -> T {
+    if a.nodes.len() != b.nodes.len() || a.edges.len() != b.edges.len() || a.adj.len() != b.adj.len() || a.quot.len() != b.quot.len() {
+        return tm::FALSE;
+    }
+    let mut cs = vec![all_eq(&a.nodes, &b.nodes), all_eq(&a.edges, &b.edges), all_eq(&a.s, &b.s), all_eq(&a.t, &b.t)];
+    for ((x, y), (u, v)) in a.adj.iter().zip(b.adj.iter()) {
+        cs.push(all_eq(x, u));
+        cs.push(all_eq(y, v));
+    }
+    for ((x, y), (u, v)) in a.quot.iter().zip(b.quot.iter()) {
+        cs.push(tm::eq(*x, *u));
+        cs.push(tm::eq(*y, *v));
+    }
+    tm::and(cs)
+}
+/// plain model of a quotient-free lax diagram
+pub fn plain_of_lax(l: &RawLax) -> Plain {
+    Plain {
+        n: l.nodes.len(),
+        alive: vec![tm::TRUE; l.nodes.len()],
+        lab: l.nodes.clone(),
+        s: l.s.clone(),
+        t: l.t.clone(),
+        edges: l.edges.iter().zip(l.adj.iter()).map(|(x, (a, b))| PEdge { lab: *x, src: a.clone(), tgt: b.clone() }).collect(),
+    }
+}
+/// the strict meaning of a lax diagram: quotient by the pending pairs
+pub fn strict_of_lax(l: &RawLax) -> Plain {
+    let mut p = plain_of_lax(l);
+    if !l.quot.is_empty() {
+        p = glue(&p, &l.quot);
+    }
+    p
 }
